@@ -10,16 +10,16 @@ package couchbase
 //@ modifies nothing
 
 //@ func (*healthCheck).performHealthCheck
-//@ props C19
+//@ props C19 C13
 //@ requires h != nil && h.client != nil && ctx != nil
 //@ let P = couchbase.Client.Ping
 //@ let n = dcalls(couchbase.Client.Ping)
 //@ loop 1 unroll 6
 //@ ensures.bounded[C19] 1 <= n && n <= 5
 //@ ensures.stop_on_success[C19] forall i int :: 0 <= i && i < n - 1 ==> dret(couchbase.Client.Ping, i, 1) != nil
-//@ ensures.returns_on[C19] dret(couchbase.Client.Ping, n - 1, 1) == nil || (n < 5 && dcalls(select.case) == n && darg(select.case, n - 1, index) == 0)
-//@ ensures.no_ping_after_cancel[C19] forall i int :: 0 <= i && i < dcalls(select.case) - 1 ==> darg(select.case, i, index) == 1
-//@ ensures.waits[C19] dcalls(select.case) <= n && dcalls(select.case) >= n - 1
+//@ ensures.returns_on[C19,C13] dret(couchbase.Client.Ping, n - 1, 1) == nil || (n < 5 && dcalls(select.case) == n && darg(select.case, n - 1, index) == 0)
+//@ ensures.no_ping_after_cancel[C19,C13] forall i int :: 0 <= i && i < dcalls(select.case) - 1 ==> darg(select.case, i, index) == 1
+//@ ensures.waits[C19,C13] dcalls(select.case) <= n && dcalls(select.case) >= n - 1
 //@ onpanic.five[C19] dcalls(couchbase.Client.Ping) == 5 && (forall i int :: 0 <= i && i < 5 ==> dret(couchbase.Client.Ping, i, 1) != nil) && dcalls(select.case) == 4 && (forall i int :: 0 <= i && i < 4 ==> darg(select.case, i, index) == 1)
 //@ panics.never_on_success false
 //@ modifies calls(couchbase.Client.Ping), calls(select.case), chan(uninterp("ctx.done", ctx))
@@ -31,15 +31,15 @@ package couchbase
 //@ modifies calls("go:couchbase.(*healthCheck).run"), h.cancelFunc
 
 //@ func (*healthCheck).run
-//@ props C19
+//@ props C19 C13
 //@ requires h != nil && h.config != nil && h.client != nil && ctx != nil
 //@ loop 1
 //@   modifies calls(couchbase.Client.Ping), calls(select.case), chan(uninterp("ctx.done", ctx)), chan(ticker.C)
-//@ ensures.stopped[C19] darg(select.case, dcalls(select.case) - 1, index) == 0
+//@ ensures.stopped[C19,C13] darg(select.case, dcalls(select.case) - 1, index) == 0
 //@ modifies calls(couchbase.Client.Ping), calls(select.case), chan(uninterp("ctx.done", ctx))
 
 //@ func (*healthCheck).Stop
-//@ props C19
+//@ props C19 C13
 //@ requires h != nil
-//@ ensures.once[C19] calls("field:couchbase.healthCheck.cancelFunc") <= 1
+//@ ensures.once[C19,C13] calls("field:couchbase.healthCheck.cancelFunc") <= 1
 //@ modifies calls("field:couchbase.healthCheck.cancelFunc")
